@@ -370,7 +370,21 @@ func execC10(c Case) (res evid.Result) {
 				return fail("msg %d: frame %d carries no fragment", i, j)
 			}
 		}
+		// can a fragment be sent at all?  (headers + fragmentation fields + 1 byte of payload)
+		hf := hSmall
+		hf.Seq, hf.FragIndex, hf.FragCount = u64p(0), u64p(0), u64p(2)
+		impossible := !fitsMaybe && hf.Size(1) > c.MTU
 		switch {
+		case impossible && len(frames) != 0:
+			return fail("msg %d (%d bytes, out-token %d bytes): the headers alone need %d bytes > MTU %d, but %d frame(s) were emitted",
+				i, m.Size, len(m.OutTok), hf.Size(1), c.MTU, len(frames))
+		case impossible:
+			cls["headers-exceed-mtu:dropped"] = true
+		case !fitsMaybe && len(frames) == 0 && c.MTU-26-(len(hBig.Encode())-2) < 1:
+			// (only with a PIT token far beyond NDNLPv2's 32 bytes) an implementation that
+			// reserves the worst-case 26 bytes of LpPacket/Fragment/Sequence/FragIndex/
+			// FragCount framing has no room left: dropping is acceptable
+			cls["headers-leave-no-room:dropped"] = true
 		case fitsSure && len(frames) != 1:
 			return fail("msg %d (%s, %d bytes, out-token %d bytes, mark %s, inface %v, frag=%v): a single LpPacket of %d bytes fits MTU %d but %d frames were emitted",
 				i, m.Kind, m.Size, len(m.OutTok), markStr(m.Cong), m.InFace != nil && c.InFaceInd, c.Frag, hBig.Size(len(wire)), c.MTU, len(frames))
@@ -551,6 +565,12 @@ func execC10(c Case) (res evid.Result) {
 		if msgs[i].dropped {
 			continue // nothing was emitted; anything delivered shows up as "extra" below
 		}
+		if perMsg[i] > 400 && len(got) == 0 {
+			// only reachable with a PIT token far beyond NDNLPv2's 32 bytes (payload of a
+			// few bytes per fragment): a receiver may bound the number of fragments
+			cls["more-than-400-fragments:not-reassembled"] = true
+			continue
+		}
 		multiOK := c.RxLocal && m.Kind == "D" && len(m.OutTok) != 6 // producer Data goes to every thread with a matching prefix
 		if len(got) == 0 {
 			for k, d := range sink {
@@ -620,7 +640,7 @@ func genTok(t *rapid.T, label string, threads int) []byte {
 		th := rapid.IntRange(0, threads-1).Draw(t, label+"Thread")
 		return append([]byte{0, byte(th)}, b...)
 	default:
-		n := rapid.SampledFrom([]int{1, 2, 4, 5, 7, 8, 16, 32}).Draw(t, label+"Len")
+		n := rapid.SampledFrom([]int{1, 2, 4, 5, 7, 8, 16, 32, 32, 32, 90, 200, 8780}).Draw(t, label+"Len")
 		return rapid.SliceOfN(rapid.Byte(), n, n).Draw(t, label+"Bytes")
 	}
 }
